@@ -182,7 +182,11 @@ def _of_built(ctx, run_tree):
         kind = rnd.choice(["mof", "uof"])
         return [kind] + [piece(depth - 1) for _ in range(rnd.randint(2, 3))]
 
-    for _ in range(n):
+    t0 = ctx.elapsed()
+    for i in range(n):
+        if ctx.elapsed() - t0 > (20 if ctx.tier == "quick" else 240):
+            ctx.extra["of_built_stopped_by_time_budget_after"] = i
+            break
         t = piece(3)
         if t[0] == "m" or MW.tree_atoms(t) > 8:
             continue
